@@ -89,3 +89,30 @@ pub struct HllState {
     /// array mode: out-of-order flag
     pub out_of_order: bool,
 }
+
+/// Snapshot of the internal state of a CPC sketch, as plain data.
+#[derive(Debug, Clone, PartialEq)]
+pub struct CpcState {
+    /// log2 of the number of rows
+    pub lg_k: u8,
+    /// number of coupons collected
+    pub num_coupons: u32,
+    /// current window offset
+    pub window_offset: u8,
+    /// first interesting column (speed hint)
+    pub first_interesting_column: u8,
+    /// the 8-bit window per row (empty in sparse mode)
+    pub sliding_window: Vec<u8>,
+    /// the surprising-value table's occupied slots (row << 6 | col), unordered
+    pub table_items: Vec<u32>,
+    /// log2 of the number of slots of the surprising-value table (0 if absent)
+    pub table_lg_size: u8,
+    /// number of items the surprising-value table believes it holds
+    pub table_num_items: u32,
+    /// true if the sketch is the result of a merge (HIP invalid)
+    pub merge_flag: bool,
+    /// KxP register
+    pub kxp: f64,
+    /// HIP accumulator
+    pub hip_est_accum: f64,
+}
